@@ -469,6 +469,17 @@ def run_table(tb, bins, prop, seed, tier, chk):
             path, gen, nb = gen_behaviours(chk, w, signed, mode, tb["length"], tb["num"], seed)
             outp = os.path.join(chk.WORK, "%s_beh_%d_%s_%s.out" % (prop, w, signed, mode))
             r = chk.run([mbins[mode], path, outp])
+            if r.returncode == 97:
+                # a step that never returned: the replayer's watchdog named it
+                import re as _re
+                mh = _re.search(r"behaviour (\d+) step (\d+) (\S+) (\S+) (\S+)", r.stdout)
+                if mh and prop in step_owners(mh.group(4), mh.group(5)):
+                    beh = behs_by_index(path, int(mh.group(1)))
+                    ev = {"i": 0, "p": prop, "op": "machine:%s:%s" % (mh.group(4), mh.group(5)), "w": w, "s": signed, "mode": mode, "impl": "bnum", "dts": [mh.group(3)],
+                          "a": [{"t": "tag", "v": "behaviour %s step %s" % (mh.group(1), mh.group(2))}], "fo": {"step": {"k": "hang"}}, "pm": {}, "behaviour": beh, "step": int(mh.group(2))}
+                    res["violations"].append((ev, {"step": {"k": "expected", "outcome": "a result (every call terminates)"}}, "behaviour:" + mode))
+                res["summary"]["behaviours"].append({"w": w, "signed": signed, "mode": mode, "hang": r.stdout.strip().splitlines()[-1][:300]})
+                continue
             if r.returncode != 0:
                 raise chk.ToolError("behaviour replay failed:\n" + r.stdout[-3000:])
             behs = [json.loads(l) for l in open(path)]
